@@ -6,8 +6,8 @@ the caller does when the read FAILS, and the two parameters of Model/Snapshot.le
   ckptLost     commands/checkpoint.rs:get_checkpoint_entry_for_file, the `let from_checkpoint = …` read of the
                latest entry's blob: `.unwrap_or_default()` → `.empty`; a fallback that mentions the current
                content → `.current`; anything else is an ExtractError (the model has no such case)
-  initialLost  `.drop` when git/repo_storage.rs:read_initial_attributions, on its parse-success arm, removes from
-               `files` the claims whose recorded snapshot `get_file_version(..).is_err()`; otherwise `.current`
+  initialLost  `.drop` when git/repo_storage.rs:read_initial_attributions ends with `self.<f>(&mut v); v }` where <f>
+               removes from `files` the claims whose recorded snapshot `get_file_version(..).is_err()`; otherwise `.current`
                when a reader falls back to the file as it is now (checkpoint.rs
                `initial_snapshot.unwrap_or_else(|| current_content.clone())`, virtual_attribution.rs
                `line_attributions_to_attributions(line_attrs, &file_content, ..)`); else ExtractError
@@ -172,15 +172,15 @@ def body_of(src, name):
 def initial_lost(repo_storage, checkpoint, va):
     rs = blank_comments(strip_tests(repo_storage))
     body = body_of(rs, "read_initial_attributions")
-    # parse-success arm: `Ok(<pat>) => <expr>` of the serde_json::from_str match
-    m = re.search(r"serde_json::from_str\s*\(\s*&content\s*\)\s*\{\s*Ok\s*\(\s*(?:mut\s+)?(\w+)\s*\)\s*=>", body)
-    if not m:
-        raise ExtractError("read_initial_attributions: parse-success arm not found")
-    arm_start = m.end()
-    arm_end = body.find("Err(", arm_start)
-    arm = body[arm_start:arm_end if arm_end > 0 else len(body)]
-    reach = [arm] + [body_of(rs, c) for c in set(re.findall(r"self\s*\.\s*(\w+)\s*\(", arm)) if re.search(r"\bfn\s+" + c + r"\b", rs)]
-    drops = any(re.search(r"get_file_version\s*\([^)]*\)\s*\.\s*is_err\s*\(\s*\)", t) and re.search(r"\.files\s*\.\s*remove\s*\(", t) for t in reach)
+    # after the file was read and decoded (whatever arm), the function hands the value to a method of self and
+    # returns it: `self.<f>(&mut <v>); <v> }` — <f> probes each recorded snapshot and removes the claims of the lost ones
+    drops = False
+    for m in re.finditer(r"self\s*\.\s*(\w+)\s*\(\s*&mut\s+(\w+)\s*\)\s*;\s*(\w+)\s*\}\s*$", body):
+        if m.group(2) != m.group(3) or not re.search(r"\bfn\s+" + m.group(1) + r"\b", rs):
+            continue
+        t = body_of(rs, m.group(1))
+        if re.search(r"get_file_version\s*\([^)]*\)\s*\.\s*is_err\s*\(\s*\)", t) and re.search(r"\.files\s*\.\s*remove\s*\(", t):
+            drops = True
     if drops:
         return "drop"
     ck = blank_comments(strip_tests(checkpoint))
